@@ -69,6 +69,7 @@ func runC01(c *Ctx) {
 	c.r0121(pk)
 	c.r0122(pk)
 	c.r0124(pk)
+	c.r0125(pk)
 	// a hoisted `var` whose name collides with a lexical binding of an intermediate block is an early error: the
 	// script no longer loads (same rule as R02.5)
 	c.alsoUnder(map[string]string{"R02.5": "R01.23"}, nil, func() { c.r025(pk) })
@@ -1853,4 +1854,7 @@ func init() {
 	mutant(&Mutant{Name: "c01-object-pattern-values-skipped", Property: "C01", File: "js/vars.go",
 		Old: "\t\t\tif item.Value.Binding != nil {\n\t\t\t\tvs = append(vs, bindingVars(item.Value.Binding)...)\n\t\t\t}", New: "\t\t\tif v, ok := item.Value.Binding.(*js.Var); ok {\n\t\t\t\tvs = append(vs, v)\n\t\t\t}",
 		Rule: "R01.13", Construct: "bindingVars/case *js.BindingObject"})
+	mutant(&Mutant{Name: "c01-cond-merge-under-wider-equality", Property: "C01", File: "js/util.go",
+		Old: "\t} else if isEqualExpr(finalCond, expr.Y) && (exprPrec(finalCond)", New: "\t} else if (isEqualExpr(finalCond, expr.Y) || isBooleanExpr(expr.Y)) && (exprPrec(finalCond)",
+		Rule: "R01.25", Construct: "omits Y only with a licence"})
 }
